@@ -356,7 +356,7 @@ pub fn check(c: &Case, obs: &mut Obs) -> Result<(), String> {
 pub fn property() -> Property {
     Property {
         id: "C09",
-        rule: "Streams of 1-5 entries (all required variables + random optional ones; short values with 2-, 3- and 4-byte characters at the start, the end and next to '='), each followed by one blank line. For every stream the check itself enumerates partitions: the one-call write, every single cut, every pair of cuts (streams <= 240 bytes), every fixed chunk size, byte-at-a-time, and 64 random partitions of 1-8 cuts including empty chunks. Malformed streams: one bad entry (line without '=', unknown variable, bad integer, missing PKGNAME / SIZE_PKG, or an invalid UTF-8 byte 0xFF / truncated 0xC3 in a value) at any position, same partitions. Oracle (well-formed): every write returns Ok(chunk length); afterwards the entries, printed one by one, equal M-summary's entries in order (all getters compared) and printing the collection reproduces the stream. Oracle (malformed, bad entry's blank line ending at offset e): a write fails with InvalidData no later than the chunk containing byte e-1, every earlier write returned Ok(len), and at that moment entries() are exactly the well-formed entries preceding the bad one. evaluations counts (stream, partition) executions. Non-trivial partition = a cut strictly inside a multi-byte character or between the two LF of a separator, or the stream is malformed; distinct partitions per stream are counted by construction (duplicates removed).",
+        rule: "Streams of 1-5 entries (all required variables + random optional ones; short values with 2-, 3- and 4-byte characters at the start, the end and next to '='), each followed by one blank line. For every stream the check itself enumerates partitions: the one-call write, every single cut, every pair of cuts (streams <= 240 bytes), every fixed chunk size, byte-at-a-time, and 64 random partitions of 1-8 cuts including empty chunks. Malformed streams: one bad entry (line without '=', unknown variable, bad integer, missing PKGNAME / SIZE_PKG, or an invalid UTF-8 byte 0xFF / truncated 0xC3 in a value) at any position, same partitions. Oracle (well-formed): every write returns Ok(chunk length); afterwards the entries, printed one by one, equal M-summary's entries in order (all getters compared) and printing the collection reproduces the stream. Oracle (malformed, bad entry's blank line ending at offset e): a write fails with InvalidData no later than the chunk containing byte e-1, every earlier write returned Ok(len), and at that moment entries() are exactly the well-formed entries preceding the bad one. evaluations counts (stream, partition) executions. Non-trivial partition = a cut strictly inside a multi-byte character or between the two LF of a separator, or the stream is malformed; distinct partitions per stream are counted by construction (duplicates removed). Generators also draw, at low weight, tokens from the source-literal dictionary (every string / byte / character literal of the library's own source, collected at build time and filtered by this domain's character class) (values, incl. U+FEFF at the start / end / inside).",
         assumptions: vec![
             "an entry never contains an empty line and never starts with LF; a doubled blank line (an 'empty entry') is not generated because the statement does not say whether it is an entry",
             "after the failing write the behaviour of further writes is not constrained",
